@@ -2250,3 +2250,120 @@ func c01r19(rc *core.RC) {
 		rc.Unknown("module/guarded-slices", token.NoPos, "no slice with a length test on the same cursor in front of it found")
 	}
 }
+
+// ---- C01.R20 the addressability a position has is the one its values are compiled with ----
+
+// typeToCodeWithPtr and structCode take the flag isPtr: whether the value is reached through an address (then a
+// marshal method on the pointer receiver is called on it, as encoding/json does for addressable values). A map value
+// has no address in encoding/json (its pointer-receiver methods are not used), an element of a slice and what a
+// pointer refers to have one. The flag is a constant at each of these positions. Obligation, for each of the three
+// entry functions below: every call of typeToCodeWithPtr or structCode that the entry makes, directly or through
+// helpers of the package that are no compile dispatchers themselves (a bool parameter of a helper stands for the
+// constant it is called with), passes the constant of the table.
+func c01r20(rc *core.RC) {
+	p := rc.P
+	pk := p.Pkg("encoder")
+	if pk == nil {
+		rc.Unknown("encoder/package", token.NoPos, "package encoder not loaded")
+		return
+	}
+	info := pk.TypesInfo
+	want := []struct {
+		entry string
+		val   bool
+		why   string
+	}{
+		{"(*Compiler).mapValueCode", false, "a map value has no address: encoding/json does not call pointer-receiver methods on it"},
+		{"(*Compiler).listElemCode", true, "an element of a slice is reached through its address"},
+		{"(*Compiler).ptrCode", true, "what a pointer refers to is reached through its address"},
+	}
+	targets := map[string]bool{"typeToCodeWithPtr": true, "structCode": true}
+	// compile dispatchers: a call of one of these starts a position of its own
+	stop := map[string]bool{"typeToCode": true, "typeToCodeWithPtr": true, "structCode": true, "structFieldCode": true, "ptrCode": true, "listElemCode": true,
+		"mapValueCode": true, "mapKeyCode": true, "sliceCode": true, "arrayCode": true, "mapCode": true}
+	for _, w := range want {
+		fd := p.Func("encoder", w.entry)
+		if fd == nil || fd.Body == nil {
+			rc.Unknown("encoder."+w.entry+"/addressability", token.NoPos, "entry function not found")
+			continue
+		}
+		rc.Touch(p.FuncName(fd))
+		n := 0
+		seen := map[*ast.FuncDecl]bool{}
+		var visit func(cur *ast.FuncDecl, env map[types.Object]*bool, depth int)
+		visit = func(cur *ast.FuncDecl, env map[types.Object]*bool, depth int) {
+			if seen[cur] || depth > 4 {
+				return
+			}
+			seen[cur] = true
+			eval := func(e ast.Expr) *bool {
+				e = core.Unparen(e)
+				if tv, ok := info.Types[e]; ok && tv.Value != nil && tv.Value.Kind() == constant.Bool {
+					b := constant.BoolVal(tv.Value)
+					return &b
+				}
+				if o := core.ObjOf(info, e); o != nil {
+					if v, ok := env[o]; ok {
+						return v
+					}
+				}
+				return nil
+			}
+			ast.Inspect(cur.Body, func(m ast.Node) bool {
+				call, ok := m.(*ast.CallExpr)
+				if !ok {
+					return true
+				}
+				f := core.Callee(info, call)
+				if f == nil || f.Pkg() == nil || f.Pkg() != pk.Types {
+					return true
+				}
+				if targets[f.Name()] && len(call.Args) == 2 {
+					n++
+					key := fmt.Sprintf("encoder.%s/call %s#%d in %s addressable=%v", w.entry, f.Name(), n, cur.Name.Name, w.val)
+					v := eval(call.Args[1])
+					switch {
+					case v == nil:
+						rc.Unknown(key, call.Pos(), "the flag %s is no constant here", core.Src(p.Fset, call.Args[1]))
+					case *v == w.val:
+						rc.OK(key, call.Pos(), "%s(…, %v): %s", f.Name(), *v, w.why)
+					default:
+						rc.Bad(key, call.Pos(), "%s compiles its values with isPtr=%v (%s): %s, so a member type with a marshal method on the pointer receiver is written differently from encoding/json", w.entry, *v, core.Src(p.Fset, call), w.why)
+					}
+					return true
+				}
+				if stop[f.Name()] {
+					return true
+				}
+				hd := p.DeclOf(f)
+				if hd == nil || hd.Body == nil {
+					return true
+				}
+				sig, _ := f.Type().(*types.Signature)
+				env2 := map[types.Object]*bool{}
+				if sig != nil {
+					for i := 0; i < sig.Params().Len() && i < len(call.Args); i++ {
+						if v := eval(call.Args[i]); v != nil {
+							// the parameter object of the declaration
+							k := 0
+							for _, fl := range hd.Type.Params.List {
+								for _, nm := range fl.Names {
+									if k == i {
+										env2[info.Defs[nm]] = v
+									}
+									k++
+								}
+							}
+						}
+					}
+				}
+				visit(hd, env2, depth+1)
+				return true
+			})
+		}
+		visit(fd, map[types.Object]*bool{}, 0)
+		if n == 0 {
+			rc.Unknown("encoder."+w.entry+"/addressability", fd.Pos(), "no call of typeToCodeWithPtr or structCode is reached from %s", w.entry)
+		}
+	}
+}
